@@ -42,6 +42,8 @@ type Input struct {
 	Sig     string `json:"sig"`
 	Named   bool   `json:"named"`   // blob statement asked for by name (false: empty name, the GLOBAL statement)
 	Workers int    `json:"workers"` // goroutines using the one object under test at once (1 = sequential)
+	Site    string `json:"site"`    // hostile-store cases: the descriptor that lies about its size ("none" otherwise)
+	Claimed int64  `json:"claimed"` // ... and the size it claims
 	Fuzz    bool   `json:"fuzz"`
 	Label   string `json:"label"`
 	Data    string `json:"data"`
@@ -56,6 +58,7 @@ type Obs struct {
 	Panicked   bool     `json:"panicked"`
 	Err        bool     `json:"err"`
 	Outcome    *Outcome `json:"outcome"`
+	Fetched    bool     `json:"fetched"` // hostile-store cases: the store was asked for the lying descriptor's content
 	Consistent bool     `json:"consistent"`
 }
 
@@ -522,6 +525,9 @@ func emitCase(c *common.Ctx, in Input, o Obs) {
 	if in.Workers == 0 {
 		in.Workers = 1
 	}
+	if in.Site == "" {
+		in.Site = "none"
+	}
 	c.Emit(in, o)
 }
 
@@ -529,6 +535,10 @@ func emitCase(c *common.Ctx, in Input, o Obs) {
 func Run(c *common.Ctx) error {
 	w := newWorld()
 	if child := os.Getenv("XVERIF_C12_CHILD"); child != "" {
+		if strings.HasPrefix(child, "host:") {
+			w.hostileChild(c, child) // child mode: the hostile-store cases from an index on, then exit
+			return nil
+		}
 		if strings.HasPrefix(child, "conc:") {
 			w.concurrentChild(c, child) // child mode: one concurrent stage, then exit
 			return nil
@@ -575,10 +585,11 @@ func Run(c *common.Ctx) error {
 	w.sweepConfigFiles(c)
 	w.sweepPluginOutput(c)
 	w.sweepRegistry(c)
+	w.sweepHostileStore(c)
 	w.sweepConcurrent(c)
 	for _, p := range w.panics {
 		c.Note("panic: %s", p)
 	}
-	c.Note("configuration matrix: 8 entry points x OCI document {missing, no match, skip, enforce} x blob document (same) x plugin manager {nil, present} x signature {valid, garbage, demands a missing plugin} x blob statement asked for {by name, empty name = global statement} (exhaustive); configuration-file sweep (every file the library reads x {absent, empty, every 1- and 2-byte string over a small alphabet, byte order marks alone / before the document / cut, every prefix of the valid document, UTF-16, directory / symlink in place of the file, ...} through the file-based loaders and New*FromConfig constructors, the loaded object then used); concurrent stages (child processes: one trust store / verifier / plugin manager / document / CRL cache / repository / signer shared by several goroutines, every goroutine must observe the sequential observation, a crashed child is the violation); malformed-input stream (sampled, fuzz-style): mutated JWS/COSE envelopes, random bytes, OCI/blob policy JSON, config.json / signingkeys.json, CRL cache entries, trust store files; verifier configuration sweep (valid-but-unusual signatures: countersigned, numeric COSE labels, plugin attributes x plugin manager / plugin answers x revocation options x tsa policies; verdict not modelled, only no-panic + pair consistency); hostile OCI layout sweep (lying layer sizes up to 2^63-1, null fields, hand-made descriptors) through ListSignatures / FetchSignatureBlob / notation.Verify; heap high-water mark %d MiB", w.maxHeap>>20)
+	c.Note("configuration matrix: 8 entry points x OCI document {missing, no match, skip, enforce} x blob document (same) x plugin manager {nil, present} x signature {valid, garbage, demands a missing plugin} x blob statement asked for {by name, empty name = global statement} (exhaustive); configuration-file sweep (every file the library reads x {absent, empty, every 1- and 2-byte string over a small alphabet, byte order marks alone / before the document / cut, every prefix of the valid document, UTF-16, directory / symlink in place of the file, ...} through the file-based loaders and New*FromConfig constructors, the loaded object then used); hostile store behind oras.GraphTarget (child process, modelled: descriptor {referrer announced by the predecessor list, signature manifest from the Referrers API / the caller, envelope, config} x claimed size {min int64, -1, 0, 1, actual-1, actual, actual+1, cap-1, cap, cap+1, 2 cap, 64 MiB, 768 MiB, 2^40, 2^62, max int64, random} x delivered content {honest, an empty object, zeros without end} through ListSignatures / FetchSignatureBlob / notation.Verify: content is asked for iff the claim is within its cap, every call within an allocation budget of 80 MiB by runtime.MemStats.TotalAlloc); concurrent stages (child processes: one trust store / verifier / plugin manager / document / CRL cache / repository / signer shared by several goroutines, every goroutine must observe the sequential observation, a crashed child is the violation); malformed-input stream (sampled, fuzz-style): mutated JWS/COSE envelopes, random bytes, OCI/blob policy JSON, config.json / signingkeys.json, CRL cache entries, trust store files; verifier configuration sweep (valid-but-unusual signatures: countersigned, numeric COSE labels, plugin attributes x plugin manager / plugin answers x revocation options x tsa policies; verdict not modelled, only no-panic + pair consistency); hostile OCI layout sweep (lying layer sizes up to 2^63-1, null fields, hand-made descriptors) through ListSignatures / FetchSignatureBlob / notation.Verify; heap high-water mark %d MiB", w.maxHeap>>20)
 	return nil
 }
